@@ -81,14 +81,21 @@ def render_body(segs) -> str:
     return "".join(WRAP[s["w"]][0] + render(s["c"]) + WRAP[s["w"]][1] for s in segs)
 
 
-def install(ctx, lib: dict) -> None:
+def install(ctx, lib: dict, need=()) -> None:
     for name, segs in lib.items():
         if name == "RDR":
             # marker of Transclusion.tla: the redirect pages exist
             ctx.add_page("Template:R1", 10, redirect_to="Template:T1")
             ctx.add_page("Template:R2", 10, redirect_to="Template:R1")
             continue
-        ctx.add_page("Template:" + name, 10, body=render_body(segs))
+        if name == "RDC":
+            # marker: redirects that never reach a page (a cycle, and a redirect to its own title
+            # in the other first-letter case); calls to them go nowhere
+            ctx.add_page("Template:Ping", 10, redirect_to="Template:Pong")
+            ctx.add_page("Template:Pong", 10, redirect_to="Template:Ping")
+            ctx.add_page("Template:Cw", 10, redirect_to="Template:cw")
+            continue
+        ctx.add_page("Template:" + name, 10, body=render_body(segs), need_pre_expand=name in need)
 
 
 def tokenize(s: str) -> list[str]:
